@@ -37,8 +37,10 @@ type Enum struct {
 	inCalib     bool
 	Unreachable []string
 	Policy      func(k int, n uint32) uint32 // index for draws beyond the plan (nil: 0)
-	MaxDraws    int                          // >0: abandon a run after this many draws
-	MaxProd     float64                      // >0: abandon a run once the product of its bounds exceeds this (its mass is below 1/MaxProd)
+	FailAtRead  int                          // >0: the random source fails at this Read call (after FailGot bytes)
+	FailGot     int
+	MaxDraws    int     // >0: abandon a run after this many draws
+	MaxProd     float64 // >0: abandon a run once the product of its bounds exceeds this (its mass is below 1/MaxProd)
 }
 
 func NewEnum(seed int64) *Enum {
@@ -176,7 +178,7 @@ type RunOut struct {
 // Run executes body once along plan (indices for the first draws; further
 // draws take index 0).
 func (e *Enum) Run(plan []uint32, body func()) (out RunOut) {
-	t := &Tape{Chunk: e.Chunk}
+	t := &Tape{Chunk: e.Chunk, FailAt: e.FailAtRead, FailGot: e.FailGot}
 	t.Supply = func() (uint32, bool) {
 		// a read that no draw announced: serve a seeded word, remember it
 		t.Unannounced++
